@@ -93,6 +93,12 @@ CLAIMED = {
    text="Bounded model checking of the inductive step: after one accepted step of geographical rewiring I/II/III from every labelled graph up to the bound, for every distance matrix, tolerance and pair of drawn links, the adjacency is symmetric, loop-free and 0/1, every degree is unchanged, the edge array still lists each link once, the two new link lengths match the two removed ones within the tolerance and (III) the degree pairs of rewired links are equal; cross-link setting creates exactly the requested number of links and cross-link swaps preserve every cross degree, both leaving all other entries untouched (symbolic internal links). Histories of any length follow by induction since the post-state satisfies the invariant again.",
    note="Bounds: all graphs n=4 with >=2 links (n=5 sampled, thorough); bipartitions of n<=4. Rejection loops are analysed under the assumption that the drawn candidate is accepted (termination outside). igraph-based generators (ErdosRenyi, Configuration, WattsStrogatz, randomly_rewire) and the growth models are outside.",
    ref="DESIGN.md §3 C17"),
+ "C06": dict(
+   engine="P",
+   technique="proxy-value symbolic execution with cell-level write tracking: arrays reachable from the caller, from the object and from the caches are snapshotted as terms before a query and compared cell by cell afterwards (z3 query per possibly-changed cell); sat models replayed on real objects",
+   text="Bounded model checking of the frame condition (which subsumes all orderings of queries): on one Network/InteractingNetworks object every measure Engine P can execute is called in two opposite orders; after each call the adjacency, the node weights, the cached path lengths and every array returned earlier are cell-wise equal to their snapshots and repeating a query returns an equal value; ClimateNetwork: constructor leaves the caller's similarity matrix intact and inv_correlation_distance leaves the memoised correlation_distance intact; similarity estimators leave the anomaly array they are handed intact; recurrence constructors (also with normalize=True) leave caller series intact. Surrogates purity is decided in C15.",
+   note="Bounds: 3 concrete topologies (n<=4) with symbolic weights/link attributes (more in thorough), ClimateNetwork N=3, 3 x 2 anomalies, 3-sample series. Methods documented as in-place are exempt. Objects P cannot execute (netCDF, plotting, igraph-only) outside.",
+   ref="DESIGN.md §3 C06"),
 }
 NA_DEFAULT = "check not built yet in this round (see DESIGN.md §6 for the planned obligation)"
 def main():
